@@ -48,6 +48,10 @@ func genScript(r *rand.Rand, big bool) []watchlib.Op {
 			live = append(live, next)
 			next++
 		}
+		if r.Intn(5) < 3 {
+			// the last change of the phase arrives while a compile is running, after that compile read the input
+			sc = append(sc, watchlib.Op{Op: "edit_in_compile", Ms: 3 + r.Intn(40)})
+		}
 		sc = append(sc, watchlib.Op{Op: "quiesce"})
 	}
 	sc = append(sc, watchlib.Op{Op: "shutdown"})
@@ -62,6 +66,14 @@ func emit(c *hl.Ctx, seed int64, perturb bool, sc []watchlib.Op) error {
 	var scj []any
 	b, _ := json.Marshal(sc)
 	json.Unmarshal(b, &scj)
+	if h, ok := out["hist"].(map[string]int); ok {
+		for k, n := range h {
+			for i := 0; i < n; i++ {
+				c.Count(k)
+			}
+		}
+	}
+	delete(out, "hist")
 	c.Emit(map[string]any{"k": "watch", "in": map[string]any{"script": scj, "pseed": seed, "perturb": perturb}, "out": out})
 	return nil
 }
@@ -84,6 +96,12 @@ func run(c *hl.Ctx) error {
 		sc := genScript(r, !c.Quick() && r.Intn(4) == 0)
 		if err := emit(c, r.Int63(), perturb, sc); err != nil {
 			return err
+		}
+		if watchlib.FailedSessions() >= 3 {
+			// the tree under test keeps missing idle points: three recorded sessions are enough evidence, do not
+			// spend the remaining budget waiting
+			c.Count("stopped-early")
+			break
 		}
 		if perturb {
 			c.Count("session:perturbed")
